@@ -8,9 +8,16 @@ import RrModel.Spec.Tables
 
   * `location_resolution` (full strength since the repair of finding C18-b)
   * `hop_semantics_match`, `hop_semantics_fallback`, `hop_semantics_nomatch_root`
-  * `terminates_partial`, `final_response`, `follow_done_reaches`, `ending_chain_acyclic`
+  * `terminates` (FULL strength since the repair of findings C18-a / C18-c: every request is
+    answered within `maxRedirects + 1` contacts, a chain that loops with 508), `follow_done`,
+    `loop_ends_508`, `bound_508`, `chain_ends`
+  * `final_response` (for every chain of at most `maxRedirects` re-entries, the chain taken with
+    ANY bound), `long_chain_508` (a longer one: 508 after `maxRedirects + 1` contacts): what the
+    handler does is the unbounded chain cut off after `maxRedirects` hops
+  * `reaches_follow`, `final_response_followed`, `follow_done_reaches`, `ending_chain_acyclic`
   * `self_redirect_508`, `absolute_not_caught_on_first_request`
-  * `cycle_diverges`, `diverges_forall_fuel`, `Statement_false` (C18-a)
+  * the former witnesses of C18-a (2-cycle, 3-cycle, https upgrade, late self-redirect) as
+    `example`s of the 508 after `maxRedirects` hops
 -/
 namespace Props.C18
 open Go Model Model.Redirect Spec.C18
@@ -168,8 +175,8 @@ def contactOf : HopRes → Option Contact
   | .next _ c => some c
 
 /-- whatever the answer, the performer was asked exactly the prepared request -/
-theorem conclude_contact (cfg : Cfg) (p : Prepared) :
-    ∃ c, contactOf (conclude cfg p) = some c ∧ c.url = p.contact.url ∧
+theorem conclude_contact (cfg : Cfg) (hops : Nat) (p : Prepared) :
+    ∃ c, contactOf (conclude cfg hops p) = some c ∧ c.url = p.contact.url ∧
       c.hostField = p.contact.hostField ∧ c.headers = p.contact.headers := by
   unfold conclude
   simp only
@@ -179,7 +186,9 @@ theorem conclude_contact (cfg : Cfg) (p : Prepared) :
     · exact ⟨_, rfl, rfl, rfl, rfl⟩
     · exact ⟨_, rfl, rfl, rfl, rfl⟩
     · split
-      · split <;> exact ⟨_, rfl, rfl, rfl, rfl⟩
+      · split
+        · exact ⟨_, rfl, rfl, rfl, rfl⟩
+        · split <;> exact ⟨_, rfl, rfl, rfl, rfl⟩
       · exact ⟨_, rfl, rfl, rfl, rfl⟩
 
 /-- the rule `GetRoutingFlavors` reports is the first applicable proxy rule of C01 -/
@@ -256,34 +265,37 @@ theorem hop_semantics_nomatch_root (cfg : Cfg) (lvl : Level) (q : Query)
   rfl
 
 /-- a re-entry happens exactly on a redirect with a parsable Location under a restarting rule
-    that `urlEquals` does not stop; the new activation is `reenter`: the resolved Location (scheme
+    that neither `urlEquals` nor the redirect counter stops (`hops` = the redirects followed so
+    far for this client request); the new activation is `reenter`: the resolved Location (scheme
     forced to the contacted URL's) as request URL and Host, the request headers as overridden so
-    far, the same `frf` -/
-theorem reentry_iff (cfg : Cfg) (p : Prepared) (lvl' : Level) (c : Contact) :
-    conclude cfg p = .next lvl' c ↔
+    far, the same `frf`, the counter one higher -/
+theorem reentry_iff (cfg : Cfg) (hops : Nat) (p : Prepared) (lvl' : Level) (c : Contact) :
+    conclude cfg hops p = .next lvl' c ↔
       ∃ resp redir, cfg.origin p.contact = some resp ∧ redirectOf cfg resp = some (some redir) ∧
         (p.rf.map (·.restartOnRedirect)).getD false = true ∧ urlEquals redir p.r.url = false ∧
-        lvl' = reenter p redir ∧ c = p.contact := by
+        hops + 1 ≤ cfg.maxRedirects ∧
+        lvl' = reenter p redir (hops + 1) ∧ c = p.contact := by
   cases ho : cfg.origin p.contact with
   | none =>
-    have : conclude cfg p = .leaf (.userError 502 b!"Destination unreachable") (some { p.contact with failed := true }) := by
+    have : conclude cfg hops p = .leaf (.userError 502 b!"Destination unreachable") (some { p.contact with failed := true }) := by
       unfold conclude; simp only [ho]
     rw [this]; simp
   | some resp =>
     cases hr : redirectOf cfg resp with
     | none =>
-      have : conclude cfg p = .leaf .plainError (some p.contact) := by unfold conclude; simp only [ho, hr]
+      have : conclude cfg hops p = .leaf .plainError (some p.contact) := by unfold conclude; simp only [ho, hr]
       rw [this]; simp [hr]
     | some o =>
       cases o with
       | none =>
-        have : conclude cfg p = .leaf (.response resp p.rule) (some p.contact) := by unfold conclude; simp only [ho, hr]
+        have : conclude cfg hops p = .leaf (.response resp p.rule) (some p.contact) := by unfold conclude; simp only [ho, hr]
         rw [this]; simp [hr]
       | some redir =>
-        have hc : conclude cfg p =
+        have hc : conclude cfg hops p =
             if (p.rf.map (·.restartOnRedirect)).getD false = true then
               if urlEquals redir p.r.url = true then .leaf (.userError 508 b!"Loop detected") (some p.contact)
-              else .next (reenter p redir) p.contact
+              else if hops + 1 > cfg.maxRedirects then .leaf (.userError 508 b!"Loop detected") (some p.contact)
+              else .next (reenter p redir (hops + 1)) p.contact
             else .leaf (.response resp p.rule) (some p.contact) := by unfold conclude; simp only [ho, hr]
         rw [hc]
         by_cases h1 : (p.rf.map (·.restartOnRedirect)).getD false = true
@@ -292,18 +304,135 @@ theorem reentry_iff (cfg : Cfg) (p : Prepared) (lvl' : Level) (c : Contact) :
           · rw [if_pos h2]; simp [hr, h2]
           · rw [if_neg h2]
             simp only [Bool.not_eq_true] at h2
-            constructor
-            · intro h
-              injection h with h3 h4
-              exact ⟨resp, redir, rfl, hr, h1, h2, h3.symm, h4.symm⟩
-            · rintro ⟨resp', redir', hresp, hredir, _, _, rfl, rfl⟩
-              injection hresp with hresp; subst hresp
-              rw [hr] at hredir
-              injection hredir with hredir; injection hredir with hredir; subst hredir
-              rfl
+            by_cases h3 : hops + 1 > cfg.maxRedirects
+            · rw [if_pos h3]
+              constructor
+              · intro h; cases h
+              · rintro ⟨_, _, _, _, _, _, h5, _, _⟩; omega
+            · rw [if_neg h3]
+              constructor
+              · intro h
+                injection h with h4 h5
+                exact ⟨resp, redir, rfl, hr, h1, h2, by omega, h4.symm, h5.symm⟩
+              · rintro ⟨resp', redir', hresp, hredir, _, _, _, rfl, rfl⟩
+                injection hresp with hresp; subst hresp
+                rw [hr] at hredir
+                injection hredir with hredir; injection hredir with hredir; subst hredir
+                rfl
         · rw [if_neg h1]; simp [h1]
 
 /-! ## Termination -/
+
+/-- a re-entry has counted one more redirect, and the count stays within the bound -/
+theorem hop_next_hops (cfg : Cfg) (lvl lvl' : Level) (c : Contact) (h : hop cfg lvl = .next lvl' c) :
+    lvl'.hops = lvl.hops + 1 ∧ lvl.hops + 1 ≤ cfg.maxRedirects := by
+  unfold hop at h
+  cases hp : prepare cfg lvl with
+  | error e => rw [hp] at h; simp at h
+  | ok p =>
+    rw [hp] at h
+    simp only at h
+    obtain ⟨_, redir, _, _, _, _, hb, rfl, _⟩ := (reentry_iff cfg lvl.hops p lvl' c).1 h
+    exact ⟨rfl, hb⟩
+
+/-- the same rule set, origin and tables under another bound (`M'` large: "no bound") -/
+def withBound (cfg : Cfg) (M' : Nat) : Cfg := { cfg with maxRedirects := M' }
+
+theorem prepare_withBound (cfg : Cfg) (M' : Nat) (lvl : Level) : prepare (withBound cfg M') lvl = prepare cfg lvl := rfl
+
+/-- an answer is handed to the client exactly when it is not a redirect, or the effective rule
+    does not restart — whatever the bound -/
+theorem response_iff (cfg : Cfg) (hops : Nat) (p : Prepared) (resp : Resp) (rule : Rule) (c : Option Contact) :
+    conclude cfg hops p = .leaf (.response resp rule) c ↔
+      cfg.origin p.contact = some resp ∧ rule = p.rule ∧ c = some p.contact ∧
+        (redirectOf cfg resp = some none ∨
+         ((∃ redir, redirectOf cfg resp = some (some redir)) ∧ (p.rf.map (·.restartOnRedirect)).getD false = false)) := by
+  cases ho : cfg.origin p.contact with
+  | none =>
+    have : conclude cfg hops p = .leaf (.userError 502 b!"Destination unreachable") (some { p.contact with failed := true }) := by
+      unfold conclude; simp only [ho]
+    rw [this]; simp
+  | some resp' =>
+    cases hr : redirectOf cfg resp' with
+    | none =>
+      have : conclude cfg hops p = .leaf .plainError (some p.contact) := by unfold conclude; simp only [ho, hr]
+      rw [this]
+      constructor
+      · intro h; cases h
+      · rintro ⟨h1, _, _, h2⟩
+        injection h1 with h1; subst h1
+        rw [hr] at h2
+        rcases h2 with h2 | ⟨⟨_, h2⟩, _⟩ <;> cases h2
+    | some o =>
+      cases o with
+      | none =>
+        have : conclude cfg hops p = .leaf (.response resp' p.rule) (some p.contact) := by unfold conclude; simp only [ho, hr]
+        rw [this]
+        constructor
+        · intro h
+          injection h with h1 h2
+          injection h1 with h3 h4
+          subst h3
+          exact ⟨rfl, h4.symm, h2.symm, Or.inl hr⟩
+        · rintro ⟨h1, rfl, rfl, _⟩
+          injection h1 with h1; subst h1; rfl
+      | some redir =>
+        have hc : conclude cfg hops p =
+            if (p.rf.map (·.restartOnRedirect)).getD false = true then
+              if urlEquals redir p.r.url = true then .leaf (.userError 508 b!"Loop detected") (some p.contact)
+              else if hops + 1 > cfg.maxRedirects then .leaf (.userError 508 b!"Loop detected") (some p.contact)
+              else .next (reenter p redir (hops + 1)) p.contact
+            else .leaf (.response resp' p.rule) (some p.contact) := by unfold conclude; simp only [ho, hr]
+        rw [hc]
+        by_cases h1 : (p.rf.map (·.restartOnRedirect)).getD false = true
+        · rw [if_pos h1]
+          constructor
+          · intro h
+            split at h
+            · cases h
+            · split at h <;> cases h
+          · rintro ⟨h2, _, _, h3⟩
+            injection h2 with h2; subst h2
+            rw [hr] at h3
+            rcases h3 with h3 | ⟨_, h3⟩
+            · cases h3
+            · rw [h1] at h3; cases h3
+        · rw [if_neg h1]
+          constructor
+          · intro h
+            injection h with h2 h3
+            injection h2 with h4 h5
+            subst h4
+            exact ⟨rfl, h5.symm, h3.symm, Or.inr ⟨⟨redir, hr⟩, by simpa using h1⟩⟩
+          · rintro ⟨h2, rfl, rfl, _⟩
+            injection h2 with h2; subst h2; rfl
+
+/-- a response leaf does not depend on the bound -/
+theorem hop_response_any_bound (cfg : Cfg) (M' : Nat) (lvl : Level) (resp : Resp) (rule : Rule) (c : Option Contact)
+    (h : hop (withBound cfg M') lvl = .leaf (.response resp rule) c) :
+    hop cfg lvl = .leaf (.response resp rule) c := by
+  unfold hop at h ⊢
+  rw [prepare_withBound] at h
+  cases hp : prepare cfg lvl with
+  | error e => rw [hp] at h; exact h
+  | ok p =>
+    rw [hp] at h
+    simp only at h ⊢
+    exact (response_iff cfg lvl.hops p resp rule c).2 ((response_iff (withBound cfg M') lvl.hops p resp rule c).1 h)
+
+/-- a re-entry made under some bound is made under every bound the counter has not reached -/
+theorem hop_next_any_bound (cfg : Cfg) (M' : Nat) (lvl lvl' : Level) (c : Contact)
+    (h : hop (withBound cfg M') lvl = .next lvl' c) (hb : lvl.hops + 1 ≤ cfg.maxRedirects) :
+    hop cfg lvl = .next lvl' c := by
+  unfold hop at h ⊢
+  rw [prepare_withBound] at h
+  cases hp : prepare cfg lvl with
+  | error e => rw [hp] at h; simp at h
+  | ok p =>
+    rw [hp] at h
+    simp only at h ⊢
+    obtain ⟨resp, redir, ho, hre, hrs, hue, _, h5, h6⟩ := (reentry_iff (withBound cfg M') lvl.hops p lvl' c).1 h
+    exact (reentry_iff cfg lvl.hops p lvl' c).2 ⟨resp, redir, ho, hre, hrs, hue, hb, h5, h6⟩
 
 /-- the chain from `lvl` ends after exactly `d` re-entries in leaf `l`, having contacted `hops` -/
 def Reaches (cfg : Cfg) : Nat → Level → Leaf → List Contact → Prop
@@ -311,9 +440,10 @@ def Reaches (cfg : Cfg) : Nat → Level → Leaf → List Contact → Prop
   | d + 1, lvl, l, hops =>
     ∃ lvl' c hops', hop cfg lvl = .next lvl' c ∧ Reaches cfg d lvl' l hops' ∧ hops = c :: hops'
 
-/-- **terminates_partial**: a redirect chain that ends after `d` re-entries is served with any
-    fuel above `d` — for every rule set, origin behaviour and request -/
-theorem terminates_partial (cfg : Cfg) (d : Nat) (lvl : Level) (l : Leaf) (hops : List Contact)
+/-- **reaches_follow** (was `terminates_partial`): a redirect chain that ends after `d`
+    re-entries is served with any fuel above `d` — for every rule set, origin behaviour and
+    request -/
+theorem reaches_follow (cfg : Cfg) (d : Nat) (lvl : Level) (l : Leaf) (hops : List Contact)
     (h : Reaches cfg d lvl l hops) : ∀ fuel, d < fuel → follow cfg fuel lvl = .done l hops := by
   induction d generalizing lvl hops with
   | zero =>
@@ -358,6 +488,28 @@ theorem follow_done_reaches (cfg : Cfg) (fuel : Nat) (lvl : Level) (l : Leaf) (h
         obtain ⟨d, hd, hr⟩ := ih lvl' hops' hf
         exact ⟨d + 1, by omega, lvl', c, hops', hh, hr, rfl⟩
 
+/-- **follow_done**: an activation that finds the counter at `lvl.hops` is answered as soon as the
+    fuel covers the redirects the counter still allows — `maxRedirects + 1 - lvl.hops`
+    activations, one contact each at most.  For every rule set, origin behaviour and request. -/
+theorem follow_done (cfg : Cfg) (fuel : Nat) (lvl : Level) (hf : 0 < fuel)
+    (hb : cfg.maxRedirects + 1 ≤ fuel + lvl.hops) :
+    ∃ l hops, follow cfg fuel lvl = .done l hops ∧
+      (hops.length ≤ 1 ∨ hops.length + lvl.hops ≤ cfg.maxRedirects + 1) := by
+  induction fuel generalizing lvl with
+  | zero => omega
+  | succ n ih =>
+    cases hh : hop cfg lvl with
+    | leaf l c =>
+      refine ⟨l, c.toList, by simp [follow, hh], ?_⟩
+      cases c <;> simp
+    | next lvl' c =>
+      obtain ⟨h1, h2⟩ := hop_next_hops cfg lvl lvl' c hh
+      obtain ⟨l, hops, hfo, hlen⟩ := ih lvl' (by omega) (by omega)
+      refine ⟨l, c :: hops, by simp [follow, hh, hfo, Outcome.prepend], ?_⟩
+      right
+      simp only [List.length_cons]
+      omega
+
 theorem prepErr_not_response (e : PrepErr) (r : Resp) (rule : Rule) : e.leaf ≠ .response r rule := by
   cases e <;> simp [PrepErr.leaf]
 
@@ -389,7 +541,9 @@ theorem leaf_response_origin (cfg : Cfg) (lvl : Level) (resp : Resp) (rule : Rul
       · split at h
         · split at h
           · injection h with h1 _; cases h1
-          · cases h
+          · split at h
+            · injection h with h1 _; cases h1
+            · cases h
         · injection h with h1 h2
           injection h1 with h3 _
           subst h3; subst h2
@@ -411,14 +565,59 @@ theorem reaches_length (cfg : Cfg) (d : Nat) (lvl : Level) (resp : Resp) (rule :
     | nil => simp at hl
     | cons x xs => simpa [List.getLast?_cons_cons] using hlast
 
-/-- **final_response**: for every redirect chain that ends in a non-redirect (or passed-on) answer
-    after `d` re-entries, fuel `d + 1` suffices, exactly `d + 1` destinations are contacted, and
-    the client receives what the LAST of them answered -/
-theorem final_response (cfg : Cfg) (d : Nat) (lvl : Level) (resp : Resp) (rule : Rule) (hops : List Contact)
+/-- a chain the handler follows has at most `maxRedirects` re-entries: every one of them was
+    counted -/
+theorem reaches_depth_le (cfg : Cfg) (d : Nat) (lvl : Level) (l : Leaf) (hops : List Contact)
+    (h : Reaches cfg d lvl l hops) : 0 < d → d + lvl.hops ≤ cfg.maxRedirects := by
+  induction d generalizing lvl hops with
+  | zero => intro h0; omega
+  | succ d ih =>
+    intro _
+    obtain ⟨lvl', c, hops', hc, hr, _⟩ := h
+    obtain ⟨h1, h2⟩ := hop_next_hops cfg lvl lvl' c hc
+    cases d with
+    | zero => omega
+    | succ d => have := ih lvl' hops' hr (by omega); omega
+
+/-- a chain that ends in a handed-on answer under SOME bound `M'` after `d` re-entries is the same
+    chain under `cfg`'s own bound, provided the counter covers it -/
+theorem reaches_any_bound (cfg : Cfg) (M' : Nat) (resp : Resp) (rule : Rule) (d : Nat) (lvl : Level) (hops : List Contact)
+    (h : Reaches (withBound cfg M') d lvl (.response resp rule) hops)
+    (hd : 0 < d → d + lvl.hops ≤ cfg.maxRedirects) :
+    Reaches cfg d lvl (.response resp rule) hops := by
+  induction d generalizing lvl hops with
+  | zero =>
+    obtain ⟨c, hc, rfl⟩ := h
+    exact ⟨c, hop_response_any_bound cfg M' lvl resp rule c hc, rfl⟩
+  | succ d ih =>
+    obtain ⟨lvl', c, hops', hc, hr, rfl⟩ := h
+    have hb := hd (by omega)
+    have hh := (hop_next_hops (withBound cfg M') lvl lvl' c hc).1
+    exact ⟨lvl', c, hops', hop_next_any_bound cfg M' lvl lvl' c hc (by omega), ih lvl' hops' hr (by intro _; omega), rfl⟩
+
+/-- **final_response**: for every redirect chain of at most `maxRedirects` re-entries — the chain
+    as the rules and the origin define it, followed with ANY bound `M'` (think of `M'` as "no
+    bound") — that ends in a non-redirect (or passed-on) answer after `d` re-entries,
+    `d + lvl.hops ≤ maxRedirects`: under the code's own bound fuel `d + 1` suffices, exactly
+    `d + 1` destinations are contacted, and the client receives what the LAST of them answered.
+    The counter does not disturb a chain it covers. -/
+theorem final_response (cfg : Cfg) (M' d : Nat) (lvl : Level) (resp : Resp) (rule : Rule) (hops : List Contact)
+    (h : Reaches (withBound cfg M') d lvl (.response resp rule) hops)
+    (hd : 0 < d → d + lvl.hops ≤ cfg.maxRedirects) :
+    follow cfg (d + 1) lvl = .done (.response resp rule) hops ∧ hops.length = d + 1 ∧
+      ∃ c, hops.getLast? = some c ∧ cfg.origin c = some resp :=
+  have h' := reaches_any_bound cfg M' resp rule d lvl hops h hd
+  ⟨reaches_follow cfg d lvl _ hops h' (d + 1) (by omega), reaches_length cfg d lvl resp rule hops h'⟩
+
+/-- the statement `final_response` had before the repair, verbatim, for the chains the handler
+    follows to their end under its own bound (they have at most `maxRedirects` re-entries:
+    `reaches_depth_le`) -/
+theorem final_response_followed (cfg : Cfg) (d : Nat) (lvl : Level) (resp : Resp) (rule : Rule) (hops : List Contact)
     (h : Reaches cfg d lvl (.response resp rule) hops) :
     follow cfg (d + 1) lvl = .done (.response resp rule) hops ∧ hops.length = d + 1 ∧
       ∃ c, hops.getLast? = some c ∧ cfg.origin c = some resp :=
-  ⟨terminates_partial cfg d lvl _ hops h (d + 1) (by omega), reaches_length cfg d lvl resp rule hops h⟩
+  final_response cfg cfg.maxRedirects d lvl resp rule hops h (reaches_depth_le cfg d lvl _ hops h)
+
 
 /-- the depth of an ending chain is determined by its first activation -/
 theorem reaches_depth_unique (cfg : Cfg) (d d' : Nat) (lvl : Level) (l l' : Leaf) (hops hops' : List Contact)
@@ -444,34 +643,331 @@ theorem reaches_depth_unique (cfg : Cfg) (d d' : Nat) (lvl : Level) (l l' : Leaf
       subst h1
       rw [ih d' lvl1 hops1 hops2 hr hr']
 
-theorem reaches_levelAt (cfg : Cfg) (k d : Nat) (lvl : Level) (l : Leaf) (hops : List Contact)
-    (h : Reaches cfg d lvl l hops) (hk : k ≤ d) :
-    ∃ s hops', levelAt cfg k lvl = some s ∧ Reaches cfg (d - k) s l hops' := by
-  induction k generalizing d lvl hops with
-  | zero => exact ⟨lvl, hops, rfl, h⟩
-  | succ k ih =>
-    cases d with
-    | zero => omega
-    | succ d =>
-      obtain ⟨lvl', c, hops', hc, hr, _⟩ := h
-      obtain ⟨s, hs, h1, h2⟩ := ih d lvl' hops' hr (by omega)
-      refine ⟨s, hs, ?_, by simpa using h2⟩
-      simp [levelAt, hc, h1]
+/-! ## Loops -/
 
-/-- a chain that ends is acyclic: no activation (request URL, Host, headers, parent rule) occurs
-    twice on it.  So the hypothesis of `terminates_partial` is exactly "the chain of resolved
-    URLs ends in a non-redirect", and it implies that nothing repeats on the way. -/
+/-- what an activation does before it looks at the counter depends on its request and `frf` only -/
+theorem prepare_congr (cfg : Cfg) (s s' : Level) (hr : s.req = s'.req) (hf : s.frf = s'.frf) :
+    prepare cfg s = prepare cfg s' := by
+  cases s; cases s'
+  simp only at hr hf
+  subst hr; subst hf
+  rfl
+
+/-- two activations with the same request and `frf` differ only in what the counter allows: when
+    the first re-enters, the second re-enters with the same request and `frf`, or — its counter
+    being exhausted — answers 508 after the same contact -/
+theorem hop_sim (cfg : Cfg) (s s' t : Level) (c : Contact) (hr : s.req = s'.req) (hf : s.frf = s'.frf)
+    (h : hop cfg s = .next t c) :
+    (∃ t', hop cfg s' = .next t' c ∧ t.req = t'.req ∧ t.frf = t'.frf) ∨
+    hop cfg s' = .leaf (.userError 508 b!"Loop detected") (some c) := by
+  unfold hop at h ⊢
+  rw [← prepare_congr cfg s s' hr hf]
+  cases hp : prepare cfg s with
+  | error e => rw [hp] at h; simp at h
+  | ok p =>
+    rw [hp] at h
+    simp only at h ⊢
+    obtain ⟨resp, redir, ho, hre, hrs, hue, _, rfl, rfl⟩ := (reentry_iff cfg s.hops p t c).1 h
+    by_cases hb : s'.hops + 1 ≤ cfg.maxRedirects
+    · left
+      exact ⟨reenter p redir (s'.hops + 1),
+        (reentry_iff cfg s'.hops p _ _).2 ⟨resp, redir, ho, hre, hrs, hue, hb, rfl, rfl⟩, rfl, rfl⟩
+    · right
+      have hb' : s'.hops + 1 > cfg.maxRedirects := by omega
+      unfold conclude
+      simp only [ho, hre, hrs, hue, hb', ↓reduceIte, Bool.false_eq_true]
+
+theorem levelAt_snoc (cfg : Cfg) (k : Nat) (lvl s t : Level) (c : Contact)
+    (h : levelAt cfg k lvl = some s) (hh : hop cfg s = .next t c) : levelAt cfg (k + 1) lvl = some t := by
+  induction k generalizing lvl with
+  | zero =>
+    simp only [levelAt, Option.some.injEq] at h
+    subst h
+    simp [levelAt, hh]
+  | succ k ih =>
+    unfold levelAt at h
+    cases h1 : hop cfg lvl with
+    | leaf l c' => rw [h1] at h; simp at h
+    | next lvl' c' =>
+      rw [h1] at h
+      simp only at h
+      have := ih lvl' h
+      rw [show k + 1 + 1 = (k + 1) + 1 by rfl]
+      conv => lhs; unfold levelAt
+      simp only [h1]
+      exact this
+
+theorem levelAt_split (cfg : Cfg) (i j : Nat) (lvl s s' : Level) (hi : levelAt cfg i lvl = some s)
+    (hj : levelAt cfg j lvl = some s') (hij : i ≤ j) : levelAt cfg (j - i) s = some s' := by
+  induction i generalizing lvl j with
+  | zero =>
+    simp only [levelAt, Option.some.injEq] at hi
+    subst hi
+    simpa using hj
+  | succ i ih =>
+    cases j with
+    | zero => omega
+    | succ j =>
+      unfold levelAt at hi hj
+      cases h1 : hop cfg lvl with
+      | leaf l c' => rw [h1] at hi; simp at hi
+      | next lvl' c' =>
+        rw [h1] at hi hj
+        simp only at hi hj
+        rw [show j + 1 - (i + 1) = j - i by omega]
+        exact ih j lvl' hi hj (by omega)
+
+/-- once an activation has come back to its own request and `frf` (`s'`, `k > 0` re-entries after
+    `s`), whatever `follow` answers from there is the counter's 508 -/
+theorem loop_leaf (cfg : Cfg) : ∀ (fuel k : Nat) (s s' : Level), 0 < k → levelAt cfg k s = some s' →
+    s.req = s'.req → s.frf = s'.frf → ∀ l hops, follow cfg fuel s' = .done l hops →
+    l = .userError 508 b!"Loop detected" := by
+  intro fuel
+  induction fuel with
+  | zero => intro k s s' _ _ _ _ l hops h; simp [follow] at h
+  | succ n ih =>
+    intro k s s' hk hl hr hf l hops h
+    cases k with
+    | zero => omega
+    | succ k =>
+      unfold levelAt at hl
+      cases h1 : hop cfg s with
+      | leaf l' c' => rw [h1] at hl; simp at hl
+      | next t c =>
+        rw [h1] at hl
+        simp only at hl
+        unfold follow at h
+        rcases hop_sim cfg s s' t c hr hf h1 with ⟨t', h2, hr', hf'⟩ | h2
+        · rw [h2] at h
+          simp only at h
+          cases hfo : follow cfg n t' with
+          | diverged => rw [hfo] at h; simp [Outcome.prepend] at h
+          | done l' hops' =>
+            rw [hfo] at h
+            simp only [Outcome.prepend] at h
+            injection h with e1 _
+            subst e1
+            exact ih (k + 1) t t' (by omega) (levelAt_snoc cfg k t s' t' c hl h2) hr' hf' l' hops' hfo
+        · rw [h2] at h
+          simp only at h
+          injection h with e1 _
+          exact e1.symm
+
+theorem follow_levelAt (cfg : Cfg) (j : Nat) (lvl s' : Level) (h : levelAt cfg j lvl = some s') :
+    ∀ fuel l hops, follow cfg fuel lvl = .done l hops → ∃ hops', follow cfg (fuel - j) s' = .done l hops' := by
+  induction j generalizing lvl with
+  | zero =>
+    intro fuel l hops hf
+    simp only [levelAt, Option.some.injEq] at h
+    subst h
+    exact ⟨hops, by simpa using hf⟩
+  | succ j ih =>
+    intro fuel l hops hf
+    unfold levelAt at h
+    cases h1 : hop cfg lvl with
+    | leaf l' c' => rw [h1] at h; simp at h
+    | next t c =>
+      rw [h1] at h
+      simp only at h
+      cases fuel with
+      | zero => simp [follow] at hf
+      | succ n =>
+        unfold follow at hf
+        rw [h1] at hf
+        simp only at hf
+        cases hfo : follow cfg n t with
+        | diverged => rw [hfo] at hf; simp [Outcome.prepend] at hf
+        | done l' hops' =>
+          rw [hfo] at hf
+          simp only [Outcome.prepend] at hf
+          injection hf with e1 _
+          subst e1
+          obtain ⟨hops'', h3⟩ := ih t h n l' hops' hfo
+          exact ⟨hops'', by rw [show n + 1 - (j + 1) = n - j by omega]; exact h3⟩
+
+/-- the chain loops: an activation comes back to its own request (URL, Host, headers, method) and
+    parent rule.  (The counter is not part of the comparison; the headers are: the origin sees
+    them, and a URL that is asked for again with other headers may be answered differently.) -/
+def Loops (cfg : Cfg) (lvl : Level) : Prop :=
+  ∃ i j s s', i < j ∧ levelAt cfg i lvl = some s ∧ levelAt cfg j lvl = some s' ∧
+    s.req = s'.req ∧ s.frf = s'.frf
+
+/-- **loop_ends_508**: whatever a chain that loops is answered, it is 508 Loop detected -/
+theorem loop_ends_508 (cfg : Cfg) (lvl : Level) (h : Loops cfg lvl) (fuel : Nat) (l : Leaf) (hops : List Contact)
+    (hf : follow cfg fuel lvl = .done l hops) : l = .userError 508 b!"Loop detected" := by
+  obtain ⟨i, j, s, s', hij, hi, hj, hr, hfr⟩ := h
+  obtain ⟨hops', h1⟩ := follow_levelAt cfg j lvl s' hj fuel l hops hf
+  exact loop_leaf cfg (fuel - j) (j - i) s s' (by omega) (levelAt_split cfg i j lvl s s' hi hj (by omega))
+    hr hfr l hops' h1
+
+/-- a chain that ends in anything but the counter's 508 is acyclic: no activation (request URL,
+    Host, headers, method, parent rule) occurs twice on it -/
 theorem ending_chain_acyclic (cfg : Cfg) (d : Nat) (lvl : Level) (l : Leaf) (hops : List Contact)
-    (h : Reaches cfg d lvl l hops) (i j : Nat) (hij : i < j) (hj : j ≤ d) (s : Level)
-    (hi : levelAt cfg i lvl = some s) : levelAt cfg j lvl ≠ some s := by
-  intro hjs
-  obtain ⟨s1, h1, e1, r1⟩ := reaches_levelAt cfg i d lvl l hops h (by omega)
-  obtain ⟨s2, h2, e2, r2⟩ := reaches_levelAt cfg j d lvl l hops h hj
-  rw [hi] at e1; rw [hjs] at e2
-  injection e1 with e1; injection e2 with e2
-  subst e1; subst e2
-  have := reaches_depth_unique cfg _ _ s l l h1 h2 r1 r2
-  omega
+    (h : Reaches cfg d lvl l hops) (hl : l ≠ .userError 508 b!"Loop detected")
+    (i j : Nat) (hij : i < j) (s s' : Level)
+    (hi : levelAt cfg i lvl = some s) (hj : levelAt cfg j lvl = some s') :
+    ¬ (s.req = s'.req ∧ s.frf = s'.frf) := by
+  intro ⟨hr, hf⟩
+  exact hl (loop_ends_508 cfg lvl ⟨i, j, s, s', hij, hi, hj, hr, hf⟩ (d + 1) l hops
+    (reaches_follow cfg d lvl l hops h (d + 1) (by omega)))
+
+/-! ## The termination statement -/
+
+def isErrorResponse : Outcome → Bool
+  | .done (.userError code _) _ => decide (code ≥ 400)
+  | .done .plainError _ => true
+  | _ => false
+
+/-- C18, termination clause, at full strength: for every rule set, origin behaviour and client
+    request, fuel `maxRedirects + 1` (or more) serves the request after at most
+    `maxRedirects + 1` contacts, and a chain that loops ends in an error response -/
+def Statement : Prop :=
+  ∀ (cfg : Cfg) (lvl : Level) (fuel : Nat), lvl.hops = 0 → cfg.maxRedirects + 1 ≤ fuel →
+    (∃ l hops, follow cfg fuel lvl = .done l hops ∧ hops.length ≤ cfg.maxRedirects + 1) ∧
+    (Loops cfg lvl → isErrorResponse (follow cfg fuel lvl) = true)
+
+/-- **terminates** (full strength since the repair of findings C18-a / C18-c; was
+    `terminates_partial` + `Statement_false`) -/
+theorem terminates : Statement := by
+  intro cfg lvl fuel h0 hfuel
+  obtain ⟨l, hops, hf, hlen⟩ := follow_done cfg fuel lvl (by omega) (by omega)
+  refine ⟨⟨l, hops, hf, by omega⟩, fun hl => ?_⟩
+  rw [hf, loop_ends_508 cfg lvl hl fuel l hops hf]
+  rfl
+
+/-- every chain ends (was `terminates_iff_chain_ends`: "some fuel serves the request iff its
+    chain ends" — both sides now hold for every request) -/
+theorem chain_ends (cfg : Cfg) (lvl : Level) : ∃ d l hops, Reaches cfg d lvl l hops := by
+  obtain ⟨l, hops, hf, _⟩ := follow_done cfg (cfg.maxRedirects + 1) lvl (by omega) (by omega)
+  obtain ⟨d, _, hr⟩ := follow_done_reaches cfg _ lvl l hops hf
+  exact ⟨d, l, hops, hr⟩
+
+theorem levelAt_hops (cfg : Cfg) (k : Nat) (lvl s : Level) (h : levelAt cfg k lvl = some s) :
+    s.hops = lvl.hops + k := by
+  induction k generalizing lvl with
+  | zero =>
+    simp only [levelAt, Option.some.injEq] at h
+    subst h; rfl
+  | succ k ih =>
+    unfold levelAt at h
+    cases h1 : hop cfg lvl with
+    | leaf l c' => rw [h1] at h; simp at h
+    | next lvl' c' =>
+      rw [h1] at h
+      simp only at h
+      have := ih lvl' h
+      have := (hop_next_hops cfg lvl lvl' c' h1).1
+      omega
+
+theorem levelAt_reaches (cfg : Cfg) (k : Nat) (lvl s : Level) (l : Leaf) (c : Option Contact)
+    (h : levelAt cfg k lvl = some s) (hl : hop cfg s = .leaf l c) :
+    ∃ hops, Reaches cfg k lvl l hops ∧ hops.length = k + c.toList.length := by
+  induction k generalizing lvl with
+  | zero =>
+    simp only [levelAt, Option.some.injEq] at h
+    subst h
+    exact ⟨c.toList, ⟨c, hl, rfl⟩, by simp⟩
+  | succ k ih =>
+    unfold levelAt at h
+    cases h1 : hop cfg lvl with
+    | leaf l' c' => rw [h1] at h; simp at h
+    | next lvl' c' =>
+      rw [h1] at h
+      simp only at h
+      obtain ⟨hops', hr, hlen⟩ := ih lvl' h
+      exact ⟨c' :: hops', ⟨lvl', c', hops', h1, hr, rfl⟩, by simp only [List.length_cons]; omega⟩
+
+/-- **bound_508**: a chain that is still redirecting after `maxRedirects` re-entries — the
+    activation reached then is again answered with a redirect to follow — is answered 508 Loop
+    detected after exactly `maxRedirects + 1` contacts, whether or not anything repeats on it -/
+theorem bound_508 (cfg : Cfg) (lvl s : Level) (p : Prepared) (resp : Resp) (redir : RUrl)
+    (h0 : lvl.hops = 0) (hs : levelAt cfg cfg.maxRedirects lvl = some s)
+    (hp : prepare cfg s = .ok p) (ho : cfg.origin p.contact = some resp)
+    (hr : redirectOf cfg resp = some (some redir))
+    (hrestart : (p.rf.map (·.restartOnRedirect)).getD false = true)
+    (fuel : Nat) (hfuel : cfg.maxRedirects + 1 ≤ fuel) :
+    ∃ hops, follow cfg fuel lvl = .done (.userError 508 b!"Loop detected") hops ∧
+      hops.length = cfg.maxRedirects + 1 := by
+  have hh : s.hops + 1 > cfg.maxRedirects := by
+    have := levelAt_hops cfg _ lvl s hs
+    omega
+  have hleaf : hop cfg s = .leaf (.userError 508 b!"Loop detected") (some p.contact) := by
+    unfold hop; rw [hp]; simp only
+    unfold conclude
+    simp only [ho, hr, hrestart, hh, ↓reduceIte]
+    split <;> rfl
+  obtain ⟨hops, hre, hlen⟩ := levelAt_reaches cfg _ lvl s _ _ hs hleaf
+  exact ⟨hops, reaches_follow cfg _ lvl _ hops hre fuel (by omega), by simpa using hlen⟩
+
+theorem levelAt_any_bound (cfg : Cfg) (M' : Nat) (k : Nat) (lvl s : Level)
+    (h : levelAt (withBound cfg M') k lvl = some s) (hk : 0 < k → k + lvl.hops ≤ cfg.maxRedirects) :
+    levelAt cfg k lvl = some s := by
+  induction k generalizing lvl with
+  | zero => simpa [levelAt] using h
+  | succ k ih =>
+    unfold levelAt at h ⊢
+    cases h1 : hop (withBound cfg M') lvl with
+    | leaf l c => rw [h1] at h; simp at h
+    | next lvl' c =>
+      rw [h1] at h
+      simp only at h
+      have hb := hk (by omega)
+      have hh := (hop_next_hops (withBound cfg M') lvl lvl' c h1).1
+      rw [hop_next_any_bound cfg M' lvl lvl' c h1 (by omega)]
+      simp only
+      exact ih lvl' h (by intro _; omega)
+
+/-- **long_chain_508**: a chain that — followed with ANY bound `M'` — has more than `maxRedirects`
+    re-entries (a loop of whatever length, or just a long chain) is answered 508 Loop detected
+    after exactly `maxRedirects + 1` contacts under the code's own bound.  Together with
+    `final_response`: what the handler does is the unbounded chain cut off after `maxRedirects`
+    hops. -/
+theorem long_chain_508 (cfg : Cfg) (M' : Nat) (lvl s' : Level) (h0 : lvl.hops = 0)
+    (h : levelAt (withBound cfg M') (cfg.maxRedirects + 1) lvl = some s')
+    (fuel : Nat) (hfuel : cfg.maxRedirects + 1 ≤ fuel) :
+    ∃ hops, follow cfg fuel lvl = .done (.userError 508 b!"Loop detected") hops ∧
+      hops.length = cfg.maxRedirects + 1 := by
+  -- the activation reached after maxRedirects re-entries, and its re-entry under M'
+  obtain ⟨s, hs, c, hc⟩ : ∃ s, levelAt (withBound cfg M') cfg.maxRedirects lvl = some s ∧
+      ∃ c, hop (withBound cfg M') s = .next s' c := by
+    have : ∀ (k : Nat) (lvl : Level), levelAt (withBound cfg M') (k + 1) lvl = some s' →
+        ∃ s, levelAt (withBound cfg M') k lvl = some s ∧ ∃ c, hop (withBound cfg M') s = .next s' c := by
+      intro k
+      induction k with
+      | zero =>
+        intro lvl h
+        unfold levelAt at h
+        cases h1 : hop (withBound cfg M') lvl with
+        | leaf l c => rw [h1] at h; simp at h
+        | next lvl' c =>
+          rw [h1] at h
+          simp only [levelAt, Option.some.injEq] at h
+          subst h
+          exact ⟨lvl, rfl, c, h1⟩
+      | succ k ih =>
+        intro lvl h
+        unfold levelAt at h
+        cases h1 : hop (withBound cfg M') lvl with
+        | leaf l c => rw [h1] at h; simp at h
+        | next lvl' c =>
+          rw [h1] at h
+          simp only at h
+          obtain ⟨s, hs, c', hc'⟩ := ih lvl' h
+          refine ⟨s, ?_, c', hc'⟩
+          unfold levelAt
+          simp only [h1]
+          exact hs
+    exact this _ lvl h
+  have hs' := levelAt_any_bound cfg M' cfg.maxRedirects lvl s hs (by intro _; omega)
+  unfold hop at hc
+  rw [prepare_withBound] at hc
+  cases hp : prepare cfg s with
+  | error e => rw [hp] at hc; simp at hc
+  | ok p =>
+    rw [hp] at hc
+    simp only at hc
+    obtain ⟨resp, redir, ho, hre, hrs, _, _, _, _⟩ := (reentry_iff (withBound cfg M') s.hops p s' c).1 hc
+    exact bound_508 cfg lvl s p resp redir h0 hs' hp ho hre hrs fuel hfuel
 
 /-! ## What the loop check catches -/
 
@@ -489,7 +985,8 @@ theorem self_redirect_508 (cfg : Cfg) (lvl : Level) (p : Prepared) (resp : Resp)
   simp [follow, this]
 
 /-- the client's own request URL is in origin form (no scheme): an absolute Location never
-    equals it, so an absolute self-redirect is not caught on the first request -/
+    equals it, so an absolute self-redirect is not caught by `urlEquals` on the first request
+    (the counter ends it) -/
 theorem absolute_not_caught_on_first_request (redir reqUrl : RUrl)
     (hreq : reqUrl.scheme = []) (habs : redir.scheme ≠ []) : urlEquals redir reqUrl = false := by
   unfold urlEquals
@@ -498,8 +995,8 @@ theorem absolute_not_caught_on_first_request (redir reqUrl : RUrl)
   simp [this]
 
 /-- a re-entered request URL is absolute (it carries the contacted URL's scheme): a Location
-    without scheme never equals it, so a relative or rooted self-redirect is not caught from
-    the second activation on -/
+    without scheme never equals it, so a relative or rooted self-redirect is not caught by
+    `urlEquals` from the second activation on (the counter ends it) -/
 theorem relative_not_caught_after_reentry (redir reqUrl : RUrl)
     (hreq : reqUrl.scheme ≠ []) (hrel : redir.scheme = []) : urlEquals redir reqUrl = false := by
   unfold urlEquals
@@ -508,56 +1005,7 @@ theorem relative_not_caught_after_reentry (redir reqUrl : RUrl)
 
   simp [this]
 
-/-! ## Divergence -/
-
-theorem levelAt_short (cfg : Cfg) (k : Nat) (lvl s : Level) (h : levelAt cfg k lvl = some s) :
-    ∀ n, n ≤ k → follow cfg n lvl = .diverged := by
-  induction k generalizing lvl with
-  | zero => intro n hn; have : n = 0 := by omega
-            subst this; rfl
-  | succ k ih =>
-    intro n hn
-    cases n with
-    | zero => rfl
-    | succ m =>
-      unfold levelAt at h
-      cases hh : hop cfg lvl with
-      | leaf l c => rw [hh] at h; simp at h
-      | next lvl' c =>
-        rw [hh] at h
-        simp only at h
-        simp [follow, hh, ih lvl' h m (by omega), Outcome.prepend]
-
-theorem follow_add (cfg : Cfg) (k n : Nat) (lvl s : Level) (h : levelAt cfg k lvl = some s)
-    (hd : follow cfg n s = .diverged) : follow cfg (n + k) lvl = .diverged := by
-  induction k generalizing lvl with
-  | zero =>
-    simp only [levelAt, Option.some.injEq] at h
-    subst h; simpa using hd
-  | succ k ih =>
-    unfold levelAt at h
-    cases hh : hop cfg lvl with
-    | leaf l c => rw [hh] at h; simp at h
-    | next lvl' c =>
-      rw [hh] at h
-      simp only at h
-      have := ih lvl' h
-      rw [show n + (k + 1) = (n + k) + 1 by omega]
-      simp [follow, hh, this, Outcome.prepend]
-
-/-- **cycle_diverges**: if an activation comes back to itself after `k > 0` re-entries, no
-    amount of fuel serves the request -/
-theorem cycle_diverges (cfg : Cfg) (k : Nat) (lvl : Level) (hk : 0 < k)
-    (h : levelAt cfg k lvl = some lvl) : ∀ n, follow cfg n lvl = .diverged := by
-  intro n
-  induction n using Nat.strongRecOn with
-  | _ n ih =>
-    by_cases hn : n ≤ k
-    · exact levelAt_short cfg k lvl lvl h n hn
-    · have := follow_add cfg k (n - k) lvl lvl h (ih (n - k) (by omega))
-      rwa [show n - k + k = n by omega] at this
-
-/-! ## Concrete configurations (witnesses and non-vacuity) -/
+/-! ## Concrete configurations (former witnesses, regression examples, non-vacuity) -/
 
 /-- the catch-all rule of the edge host, restart_on_redirect on -/
 def rootRule : Rule :=
@@ -574,76 +1022,75 @@ def originOf (tbl : List (Bytes × Resp)) (c : Contact) : Option Resp :=
   | none => some { status := 404, body := b!"unknown" }
 
 def cfgOf (rules : List Rule) (tbl : List (Bytes × Resp)) : Cfg :=
-  { rules := rules, origin := originOf tbl, isRedirect := fun s => Spec.redirectStatuses.contains s }
+  { rules := rules, origin := originOf tbl, isRedirect := fun s => Spec.redirectStatuses.contains s,
+    maxRedirects := Spec.maxRedirects }
 
 def clientGet (path : Bytes) : Level :=
   { req := { url := { path := path }, host := b!"h.test", headers := [], method := b!"GET" } }
 
 example : clientLevel b!"/a" b!"h.test" [] b!"GET" = some (clientGet b!"/a") := by rfl
 
-/-- a re-entered request for `http://<host><path>` with the catch-all rule as parent -/
-def reentered (host path : Bytes) (headers : Header := []) : Level :=
+/-- a re-entered request for `http://<host><path>` with the catch-all rule as parent, the counter
+    at `hops` -/
+def reentered (host path : Bytes) (headers : Header := []) (hops : Nat := 1) : Level :=
   { req := { url := { scheme := b!"http", host := host, path := path }, host := host, headers := headers, method := b!"GET" },
-    frf := some rootRule }
+    frf := some rootRule, hops := hops }
 
 def contactAt (host path : Bytes) (headers : Header := []) : Contact :=
   { url := { scheme := b!"http", host := host, path := path }, hostField := host, headers := headers }
 
-/-- the 2-cycle `/a → /b → /a` (rooted Locations) -/
+def loopDetected : Leaf := .userError 508 b!"Loop detected"
+
+/-- status and contacted paths of an outcome (what the examples below compare) -/
+def summary : Outcome → Option (Nat × List Bytes)
+  | .done l hops => some (leafStatus l, hops.map (·.url.path))
+  | .diverged => none
+
+/-- the 2-cycle `/a → /b → /a` (rooted Locations): the first former witness of C18-a -/
 def cfg2 : Cfg := cfgOf [rootRule]
   [(b!"/a", { status := 302, location := b!"/b" }), (b!"/b", { status := 302, location := b!"/a" })]
 
 theorem cfg2_first : hop cfg2 (clientGet b!"/a") = .next (reentered b!"d0.test" b!"/b") (contactAt b!"d0.test" b!"/a") := by rfl
-theorem cfg2_cycle : levelAt cfg2 2 (reentered b!"d0.test" b!"/b") = some (reentered b!"d0.test" b!"/b") := by rfl
 
-/-- **diverges_forall_fuel**: on the 2-cycle the handler never answers, whatever the fuel -/
-theorem diverges_forall_fuel : ∀ n, follow cfg2 n (clientGet b!"/a") = .diverged := by
-  intro n
-  cases n with
-  | zero => rfl
-  | succ n =>
-    have := cycle_diverges cfg2 2 _ (by omega) cfg2_cycle n
-    simp [follow, cfg2_first, this, Outcome.prepend]
+/-- the witness loops in the sense of the statement: the activation for `/b` comes back to its
+    own request after two re-entries -/
+theorem cfg2_loops : Loops cfg2 (clientGet b!"/a") :=
+  ⟨1, 3, reentered b!"d0.test" b!"/b", reentered b!"d0.test" b!"/b" [] 3, by omega, by rfl, by rfl, rfl, rfl⟩
 
-/-- the first steps for growing fuel, computed (the same fact, by evaluation) -/
-example : (List.range 40).all (fun n => match follow cfg2 n (clientGet b!"/a") with | .diverged => true | _ => false) = true := by
-  decide
+/-- the 2-cycle, repaired: 508 Loop detected after `maxRedirects + 1` = 11 contacts (the handler
+    used to recurse for ever: `diverges_forall_fuel`), for EVERY fuel from 11 on -/
+theorem two_cycle_508 (fuel : Nat) (hf : 11 ≤ fuel) :
+    ∃ hops, follow cfg2 fuel (clientGet b!"/a") = .done loopDetected hops ∧ hops.length ≤ 11 := by
+  obtain ⟨⟨l, hops, h1, h2⟩, _⟩ := terminates cfg2 (clientGet b!"/a") fuel rfl hf
+  exact ⟨hops, by rw [h1, loop_ends_508 cfg2 _ cfg2_loops fuel l hops h1]; rfl, h2⟩
 
-/-- a 3-cycle with mixed Location forms -/
+/-- the same by evaluation, with the fuel the driver uses: ten hops are followed, the eleventh
+    answer is not -/
+example : summary (follow cfg2 40 (clientGet b!"/a")) =
+    some (508, [b!"/a", b!"/b", b!"/a", b!"/b", b!"/a", b!"/b", b!"/a", b!"/b", b!"/a", b!"/b", b!"/a"]) := by decide
+
+/-- fuel 11 suffices, fuel 10 does not (the fuel is a device of the model: the code's own bound is
+    the counter) -/
+example : summary (follow cfg2 11 (clientGet b!"/a")) = summary (follow cfg2 40 (clientGet b!"/a")) ∧
+    summary (follow cfg2 10 (clientGet b!"/a")) = none := by decide
+
+/-- a 3-cycle with mixed Location forms (second former witness) -/
 def cfg3 : Cfg := cfgOf [rootRule]
   [(b!"/a", { status := 301, location := b!"b" }), (b!"/b", { status := 307, location := b!"http://d0.test/c" }),
    (b!"/c", { status := 308, location := b!"/a" })]
 
-theorem cfg3_diverges : ∀ n, follow cfg3 n (clientGet b!"/a") = .diverged := by
-  intro n
-  cases n with
-  | zero => rfl
-  | succ n =>
-    -- the first re-entry carries the RawPath the relative branch sets; the cycle closes on the
-    -- activation for /c
-    have h1 : levelAt cfg3 2 (clientGet b!"/a") = some (reentered b!"d0.test" b!"/c") := by rfl
-    have h2 : levelAt cfg3 3 (reentered b!"d0.test" b!"/c") = some (reentered b!"d0.test" b!"/c") := by rfl
-    have hc := cycle_diverges cfg3 3 _ (by omega) h2
-    by_cases hn : n + 1 ≤ 2
-    · exact levelAt_short cfg3 2 _ _ h1 (n + 1) hn
-    · have := follow_add cfg3 2 (n + 1 - 2) _ _ h1 (hc _)
-      rwa [show n + 1 - 2 + 2 = n + 1 by omega] at this
+example : summary (follow cfg3 40 (clientGet b!"/a")) =
+    some (508, [b!"/a", b!"/b", b!"/c", b!"/a", b!"/b", b!"/c", b!"/a", b!"/b", b!"/c", b!"/a", b!"/b"]) := by decide
 
-/-- an absolute self-redirect (https upgrade answered by a plain-http destination): the scheme
-    of the resolved URL is forced back to the destination's, the Location never equals it -/
+/-- an absolute self-redirect (https upgrade answered by a plain-http destination; third former
+    witness): the scheme of the resolved URL is forced back to the destination's, the Location
+    never equals it for `urlEquals` — the counter ends it -/
 def cfgUp : Cfg := cfgOf [rootRule] [(b!"/a", { status := 301, location := b!"https://d0.test/a" })]
 
-theorem cfgUp_diverges : ∀ n, follow cfgUp n (clientGet b!"/a") = .diverged := by
-  intro n
-  cases n with
-  | zero => rfl
-  | succ n =>
-    have h1 : hop cfgUp (clientGet b!"/a") = .next (reentered b!"d0.test" b!"/a") (contactAt b!"d0.test" b!"/a") := by rfl
-    have h2 : levelAt cfgUp 1 (reentered b!"d0.test" b!"/a") = some (reentered b!"d0.test" b!"/a") := by rfl
-    have := cycle_diverges cfgUp 1 _ (by omega) h2 n
-    simp [follow, h1, this, Outcome.prepend]
+example : summary (follow cfgUp 40 (clientGet b!"/a")) = some (508, List.replicate 11 b!"/a") := by decide
 
-/-- a relative self-redirect in the rooted form on the client's own request IS caught -/
+/-- a relative self-redirect in the rooted form on the client's own request IS caught by
+    `urlEquals`, after one contact -/
 def cfgSelf : Cfg := cfgOf [rootRule] [(b!"/x", { status := 302, location := b!"/x" })]
 
 theorem self_redirect_508_witness (n : Nat) :
@@ -652,22 +1099,14 @@ theorem self_redirect_508_witness (n : Nat) :
       { r := (clientGet b!"/x").req, rf := some rootRule, rule := rootRule, contact := contactAt b!"d0.test" b!"/x" } := by rfl
   exact self_redirect_508 cfgSelf _ _ { status := 302, location := b!"/x" } { path := b!"/x" } hp rfl rfl rfl rfl n
 
-/-- …but the same self-redirect reached through one earlier hop is not: the re-entered
-    request URL is absolute, the Location is not -/
+/-- …the same self-redirect reached through one earlier hop is not (the re-entered request URL is
+    absolute, the Location is not): it used to recurse for ever, now the counter ends it -/
 def cfgSelf2 : Cfg := cfgOf [rootRule]
   [(b!"/w", { status := 302, location := b!"/x" }), (b!"/x", { status := 302, location := b!"/x" })]
 
-theorem late_self_redirect_diverges : ∀ n, follow cfgSelf2 n (clientGet b!"/w") = .diverged := by
-  intro n
-  cases n with
-  | zero => rfl
-  | succ n =>
-    have h1 : hop cfgSelf2 (clientGet b!"/w") = .next (reentered b!"d0.test" b!"/x") (contactAt b!"d0.test" b!"/w") := by rfl
-    have h2 : levelAt cfgSelf2 1 (reentered b!"d0.test" b!"/x") = some (reentered b!"d0.test" b!"/x") := by rfl
-    have := cycle_diverges cfgSelf2 1 _ (by omega) h2 n
-    simp [follow, h1, this, Outcome.prepend]
+example : summary (follow cfgSelf2 40 (clientGet b!"/w")) = some (508, b!"/w" :: List.replicate 10 b!"/x") := by decide
 
-/-- an absolute self-redirect with the destination's own scheme is caught — one hop late -/
+/-- an absolute self-redirect with the destination's own scheme is caught by `urlEquals` — one hop late -/
 def cfgAbs : Cfg := cfgOf [rootRule] [(b!"/x", { status := 302, location := b!"http://d0.test/x" })]
 
 example : follow cfgAbs 2 (clientGet b!"/x") =
@@ -691,12 +1130,36 @@ def chainHops : List Contact :=
 theorem chain_reaches :
     Reaches cfgChain 2 (clientGet b!"/a") (.response { status := 200, body := b!"sink" } rootRule) chainHops :=
   ⟨_, _, _, (by rfl : hop cfgChain (clientGet b!"/a") = .next (reentered b!"d0.test" b!"/b") _), ⟨_, _, _,
-    (by rfl : hop cfgChain (reentered b!"d0.test" b!"/b") = .next (reentered b!"e1.test" b!"/c" hopHdr) _),
+    (by rfl : hop cfgChain (reentered b!"d0.test" b!"/b") = .next (reentered b!"e1.test" b!"/c" hopHdr 2) _),
     ⟨_, by rfl, rfl⟩, rfl⟩, rfl⟩
 
-/-- non-vacuity of `terminates_partial` / `final_response`: depth 2, three contacts, the sink's body -/
+/-- non-vacuity of `reaches_follow` / `final_response`: depth 2, three contacts, the sink's body -/
 example : follow cfgChain 3 (clientGet b!"/a") = .done (.response { status := 200, body := b!"sink" } rootRule) chainHops :=
-  (final_response cfgChain 2 _ _ _ _ chain_reaches).1
+  (final_response_followed cfgChain 2 _ _ _ _ chain_reaches).1
+
+/-- a chain of exactly `maxRedirects` = 10 re-entries is still followed to its end (eleven
+    contacts, the sink's answer); one hop more and the answer is 508 -/
+def nodeName (i : Nat) : Bytes := b!"/n" ++ (Nat.toDigits 10 i).map Char.toNat
+
+def longTbl (n : Nat) : List (Bytes × Resp) :=
+  (List.range n).map (fun i => (nodeName i, ({ status := 302, location := nodeName (i + 1) } : Resp))) ++
+  [(nodeName n, { status := 200, body := b!"sink" })]
+
+example : summary (follow (cfgOf [rootRule] (longTbl 10)) 40 (clientGet b!"/n0")) =
+    some (200, [b!"/n0", b!"/n1", b!"/n2", b!"/n3", b!"/n4", b!"/n5", b!"/n6", b!"/n7", b!"/n8", b!"/n9", b!"/n10"]) := by decide
+
+example : summary (follow (cfgOf [rootRule] (longTbl 11)) 40 (clientGet b!"/n0")) =
+    some (508, [b!"/n0", b!"/n1", b!"/n2", b!"/n3", b!"/n4", b!"/n5", b!"/n6", b!"/n7", b!"/n8", b!"/n9", b!"/n10"]) := by decide
+
+/-- non-vacuity of `final_response`: the chain of ten re-entries, followed "without bound"
+    (`M'` = 1000), is served identically under the code's own bound -/
+example : summary (follow (withBound (cfgOf [rootRule] (longTbl 10)) 1000) 40 (clientGet b!"/n0")) =
+    summary (follow (cfgOf [rootRule] (longTbl 10)) 40 (clientGet b!"/n0")) := by decide
+
+/-- non-vacuity of `long_chain_508`: followed with bound 1000 the 2-cycle has more than ten
+    re-entries -/
+example : ∃ hops, follow cfg2 40 (clientGet b!"/a") = .done loopDetected hops ∧ hops.length = 11 :=
+  long_chain_508 cfg2 1000 (clientGet b!"/a") (reentered b!"d0.test" b!"/b" [] 11) rfl (by rfl) 40 (by decide)
 
 /-- non-vacuity of `hop_semantics_match`: the re-entered request for `/b` matches `ruleB` -/
 example : ∃ p, prepare cfgChain (reentered b!"d0.test" b!"/b") = .ok p ∧ p.rule = ruleB ∧
@@ -715,51 +1178,16 @@ example : ∃ p, prepare cfgChain (reentered b!"e1.test" b!"/c" hopHdr) = .ok p 
   exact ⟨p, hp, h1, h3⟩
 
 /-- non-vacuity of `ending_chain_acyclic` -/
-example : levelAt cfgChain 2 (clientGet b!"/a") ≠ some (reentered b!"d0.test" b!"/b") :=
-  ending_chain_acyclic cfgChain 2 _ _ _ chain_reaches 1 2 (by omega) (by omega) _ (by rfl)
+example : ¬ ((reentered b!"d0.test" b!"/b").req = (reentered b!"e1.test" b!"/c" hopHdr 2).req ∧
+    (reentered b!"d0.test" b!"/b").frf = (reentered b!"e1.test" b!"/c" hopHdr 2).frf) :=
+  ending_chain_acyclic cfgChain 2 _ _ _ chain_reaches (by intro h; cases h) 1 2 (by omega) _ _ (by rfl) (by rfl)
 
-/-! ## The termination statement -/
-
-/-- the same URL is requested again on the chain -/
-def Loops (cfg : Cfg) (lvl : Level) : Prop :=
-  ∃ i j s s', i < j ∧ levelAt cfg i lvl = some s ∧ levelAt cfg j lvl = some s' ∧
-    s.req.url = s'.req.url ∧ s.req.host = s'.req.host
-
-def isErrorResponse : Outcome → Bool
-  | .done (.userError code _) _ => decide (code ≥ 400)
-  | .done .plainError _ => true
-  | _ => false
-
-/-- C18, termination clause, at full strength: some fuel serves every request, and a chain that
-    loops ends in an error response -/
-def Statement : Prop :=
-  ∃ N, ∀ (cfg : Cfg) (lvl : Level),
-    follow cfg N lvl ≠ .diverged ∧ (Loops cfg lvl → isErrorResponse (follow cfg N lvl) = true)
-
-/-- the statement is FALSE of the code: the only loop check compares the Location with the
-    request's own URL, so every cycle of length ≥ 2 recurses without bound (finding C18-a) -/
-theorem Statement_false : ¬ Statement := by
-  rintro ⟨N, h⟩
-  exact (h cfg2 (clientGet b!"/a")).1 (diverges_forall_fuel N)
-
-/-- the witness loops in the sense of the statement -/
-example : Loops cfg2 (clientGet b!"/a") :=
-  ⟨1, 3, reentered b!"d0.test" b!"/b", reentered b!"d0.test" b!"/b", by omega, by rfl, by rfl, rfl, rfl⟩
-
-/-- what does hold (see `terminates_partial`): the bound exists per ending chain -/
-theorem terminates_iff_chain_ends (cfg : Cfg) (lvl : Level) :
-    (∃ N, follow cfg N lvl ≠ .diverged) ↔ ∃ d l hops, Reaches cfg d lvl l hops := by
-  constructor
-  · rintro ⟨N, hN⟩
-    cases hf : follow cfg N lvl with
-    | diverged => exact absurd hf hN
-    | done l hops =>
-      obtain ⟨d, _, hr⟩ := follow_done_reaches cfg N lvl l hops hf
-      exact ⟨d, l, hops, hr⟩
-  · rintro ⟨d, l, hops, hr⟩
-    refine ⟨d + 1, ?_⟩
-    rw [terminates_partial cfg d lvl l hops hr (d + 1) (by omega)]
-    intro h; cases h
+/-- non-vacuity of `bound_508`: on the 2-cycle the activation reached after ten re-entries is
+    again answered with a redirect -/
+example : ∃ hops, follow cfg2 11 (clientGet b!"/a") = .done loopDetected hops ∧ hops.length = 11 :=
+  bound_508 cfg2 (clientGet b!"/a") (reentered b!"d0.test" b!"/a" [] 10)
+    { r := (reentered b!"d0.test" b!"/a" [] 10).req, rf := some rootRule, rule := rootRule, contact := contactAt b!"d0.test" b!"/a" }
+    { status := 302, location := b!"/b" } { path := b!"/b" } rfl (by rfl) (by rfl) rfl rfl rfl 11 (by decide)
 
 /-! ## The oracle `Spec.C18.holds` on the model's outcomes -/
 
@@ -774,16 +1202,33 @@ theorem holds_sink_response (nodes : List Node) (start i : Nat) (n : Node) (resp
     holds nodes start (obsOf (.done (.response resp rule) hops)) = (resp.status == n.status && toHex resp.body == toHex n.body) := by
   simp [holds, hc, hn, obsOf, leafStatus, leafBodyTok]
 
-/-- the graph of the 2-cycle witness as the harness scripts it (stream kf.C18-a, case 0) -/
+/-- the oracle's bound on the contacts of a looping chain leaves room for the code's bound -/
+theorem bound_within_oracle : Spec.maxRedirects + 1 ≤ maxLoopContacts := by decide
+
+/-- **holds_cycle_loops**: on a looping graph the oracle ACCEPTS what the model does with every
+    request whose chain loops — for every rule set and origin behaviour with the pinned bound: the
+    run ends by itself, with an error status, within the oracle's number of contacts -/
+theorem holds_cycle_loops (nodes : List Node) (start : Nat) (cfg : Cfg) (lvl : Level) (fuel : Nat)
+    (hc : chainEnd nodes nodes.length start = .cycle) (hm : cfg.maxRedirects = Spec.maxRedirects)
+    (h0 : lvl.hops = 0) (hfuel : cfg.maxRedirects + 1 ≤ fuel) (hl : Loops cfg lvl) :
+    holds nodes start (obsOf (follow cfg fuel lvl)) = true := by
+  obtain ⟨⟨l, hops, hf, hlen⟩, _⟩ := terminates cfg lvl fuel h0 hfuel
+  have h508 := loop_ends_508 cfg lvl hl fuel l hops hf
+  have hb := bound_within_oracle
+  rw [hf, h508]
+  simp only [holds, hc, obsOf, leafStatus, List.length_map]
+  have : hops.length ≤ maxLoopContacts := by omega
+  simp [this]
+
+/-- the graph of the 2-cycle witness as the harness scripts it (regression stream kf.C18-a, case 0) -/
 def nodes2 : List Node :=
   [{ path := b!"/a", redirect := true, status := 302, body := [], hasLoc := true, location := b!"/b", intended := 1, ruleIdx := -1 },
    { path := b!"/b", redirect := true, status := 302, body := [], hasLoc := true, location := b!"/a", intended := 0, ruleIdx := -1 }]
 
-/-- **fails_witness** (C18-a): the oracle applied to what the model does on the 2-cycle, with
-    the fuel the harness' watchdog corresponds to -/
-theorem fails_witness_a : holds nodes2 0 (obsOf (follow cfg2 40 (clientGet b!"/a"))) = false := by
-  rw [diverges_forall_fuel 40]
-  exact holds_cycle_diverged nodes2 0 (by decide)
+/-- the former `fails_witness_a`, repaired: the oracle accepts what the model does on the 2-cycle
+    (508 after 11 contacts, within the oracle's 12), with the fuel the driver uses -/
+example : holds nodes2 0 (obsOf (follow cfg2 40 (clientGet b!"/a"))) = true :=
+  holds_cycle_loops nodes2 0 cfg2 _ 40 (by decide) rfl rfl (by decide) cfg2_loops
 
 /-- the graph of the former separator witness (regression stream kf.C18-b, case 0): `/s/a → b`,
     `/s/b` answers 200 -/
